@@ -260,8 +260,9 @@ pub fn ctor_tree(rng: &mut Rng, depth: u32, nmax: usize, pks: &[PK]) -> Spec {
         match rng.below(10) {
             0..=4 => Spec::Butterfly(*rng.pick(&BUTTERFLIES)),
             5 => Spec::Dft(1 + rng.below(16) as usize),
-            6 => Spec::Radix4(1 << rng.below(9)),
-            7 => Spec::Radix3(3usize.pow(rng.below(5) as u32)),
+            // every number of radix layers the length limit allows (a defect may sit at one particular depth)
+            6 => Spec::Radix4(1 << rng.below(1 + (nmax.max(2).ilog2() as u64).min(16))),
+            7 => Spec::Radix3(3usize.pow(rng.below(1 + (nmax.max(3).ilog(3) as u64).min(10)) as u32)),
             _ => Spec::Planned(*rng.pick(pks), 1 + rng.below(96) as usize),
         }
     };
@@ -319,12 +320,15 @@ pub fn ctor_tree(rng: &mut Rng, depth: u32, nmax: usize, pks: &[PK]) -> Spec {
                 Spec::Bluestein(n, Box::new(inner))
             }
             10 => {
-                let base = ctor_tree(rng, depth - 1, nmax, pks);
-                Spec::Radix4Base(rng.below(4) as u32, Box::new(base))
+                // small bases half of the time, so that deep radix stacks fit under the length limit
+                let base = if rng.chance(0.5) { leaf(rng) } else { ctor_tree(rng, depth - 1, nmax, pks) };
+                let kmax = ((nmax / base.len().max(1)).max(1).ilog2() / 2) as u64;
+                Spec::Radix4Base(rng.below(kmax.min(7) + 1) as u32, Box::new(base))
             }
             _ => {
-                let base = ctor_tree(rng, depth - 1, nmax, pks);
-                Spec::Radix3Base(rng.below(3) as u32, Box::new(base))
+                let base = if rng.chance(0.5) { leaf(rng) } else { ctor_tree(rng, depth - 1, nmax, pks) };
+                let kmax = (nmax / base.len().max(1)).max(1).ilog(3) as u64;
+                Spec::Radix3Base(rng.below(kmax.min(9) + 1) as u32, Box::new(base))
             }
         };
         if cand.len() <= nmax && cand.len() >= 1 {
@@ -457,6 +461,17 @@ pub fn systematic_nests() -> &'static Vec<Spec> {
                 v.push(Spec::Radix4Base(1, bx(a.clone())));
                 v.push(Spec::Radix3Base(1, bx(a.clone())));
                 v.push(Spec::Radix4Base(0, bx(a.clone())));
+            }
+        }
+        // every depth of the radix stacks over the smallest bases
+        for base in [Spec::Dft(1), Spec::Butterfly(2), Spec::Dft(2), Spec::Butterfly(3), Spec::Dft(3), Spec::Butterfly(5), Spec::Butterfly(7)] {
+            for k in 2..=6u32 {
+                if base.len() * 3usize.pow(k) <= 5200 {
+                    v.push(Spec::Radix3Base(k, bx(base.clone())));
+                }
+                if k <= 5 && (base.len() << (2 * k)) <= 5200 {
+                    v.push(Spec::Radix4Base(k, bx(base.clone())));
+                }
             }
         }
         v
